@@ -69,6 +69,10 @@ const WORKLOADS: &[Workload] = &[
         "(str::to_uppercase(str::from(me) + \"ab\"), me ^ 2, math::pow(me, 2), (1; 2; 3; me), if(me > 150, 1, 2), str::from((me, me + 1, \"t\")), contains((me, 2), me), min(me, 3), max(2.5, me), me % 7, -me, me < 150, str::trim(\" x \"), len(s), bitand(me, 6), shl(me, 2), math::sqrt(me), floor(me / 3.0), typeof(me), (me, (me, 1)) == (me, (me, 1)), s + \"z\", !(me == 1), me / 7 * 3 - 1)",
         "(str::to_uppercase(\"xyz\" + str::from(me)), me ^ 3, math::pow(2, me % 5), (me; 7), if(me > 150, \"a\", \"b\"), str::from((me, (me, 2.5))), contains((1, 2, 3), me), min(me, 300, 5), max(me, 1), me % 9, -(me + 1), me >= 200, str::trim(\"\ty\"), len((me, 1, 2)), bitor(me, 1), shr(me, 1), math::ln(me), ceil(me / 7.0), typeof(s), (me, 2) != (me, 3), \"q\" + s, !(me != 1), me * 3 / 7 + 1)"], rich: false,
         what: "every operator class and a spread of builtins with thread-specific arguments and shapes (a process-wide cache inside any of them shows as another thread's value)" },
+    Workload { name: "bulk-math", threads: 2, sources: &["(math::sin(2.0), math::cos(2.75), math::ln(4.0), math::exp(4.25), math::sqrt(5.5), math::tan(5.75), math::atan(6.5), math::cbrt(7.25), math::sinh(8.0), math::log2(9.25), math::log10(10.0), math::exp2(10.25), math::sin(11.0), math::cos(11.75), math::ln(13.0), math::exp(13.25), math::sqrt(14.5), math::tan(14.75), math::atan(15.5), math::cbrt(16.25), math::sinh(17.0), math::log2(18.25), math::log10(19.0), math::exp2(19.25))", "(math::sin(5.0), math::cos(5.75), math::ln(7.0), math::exp(7.25), math::sqrt(8.5), math::tan(8.75), math::atan(9.5), math::cbrt(10.25), math::sinh(11.0), math::log2(12.25), math::log10(13.0), math::exp2(13.25), math::sin(14.0), math::cos(14.75), math::ln(16.0), math::exp(16.25), math::sqrt(17.5), math::tan(17.75), math::atan(18.5), math::cbrt(19.25), math::sinh(20.0), math::log2(21.25), math::log10(22.0), math::exp2(22.25))"], rich: false,
+        what: "24 transcendental calls per thread on overlapping and distinct arguments (a process-wide memo table with few slots makes some of them collide)" },
+    Workload { name: "bulk-case-conversion", threads: 2, sources: &["(str::to_lowercase(\"Alpha-Subject-Number-00-With-Enough-Characters-To-Be-Long\"), str::to_uppercase(\"Alpha-Subject-Number-01-With-Enough-Characters-To-Be-Long\"), str::to_lowercase(\"Alpha-Subject-Number-02-With-Enough-Characters-To-Be-Long\"), str::to_uppercase(\"Alpha-Subject-Number-03-With-Enough-Characters-To-Be-Long\"), str::to_lowercase(\"Alpha-Subject-Number-04-With-Enough-Characters-To-Be-Long\"), str::to_uppercase(\"Alpha-Subject-Number-05-With-Enough-Characters-To-Be-Long\"), str::to_lowercase(\"Alpha-Subject-Number-06-With-Enough-Characters-To-Be-Long\"), str::to_uppercase(\"Alpha-Subject-Number-07-With-Enough-Characters-To-Be-Long\"), str::to_lowercase(\"Alpha-Subject-Number-08-With-Enough-Characters-To-Be-Long\"), str::to_uppercase(\"Alpha-Subject-Number-09-With-Enough-Characters-To-Be-Long\"), str::to_lowercase(\"Alpha-Subject-Number-10-With-Enough-Characters-To-Be-Long\"), str::to_uppercase(\"Alpha-Subject-Number-11-With-Enough-Characters-To-Be-Long\"), str::to_lowercase(\"Alpha-Subject-Number-12-With-Enough-Characters-To-Be-Long\"), str::to_uppercase(\"Alpha-Subject-Number-13-With-Enough-Characters-To-Be-Long\"), str::to_lowercase(\"Alpha-Subject-Number-14-With-Enough-Characters-To-Be-Long\"), str::to_uppercase(\"Alpha-Subject-Number-15-With-Enough-Characters-To-Be-Long\"), str::to_lowercase(\"Alpha-Subject-Number-16-With-Enough-Characters-To-Be-Long\"), str::to_uppercase(\"Alpha-Subject-Number-17-With-Enough-Characters-To-Be-Long\"), str::to_lowercase(\"Alpha-Subject-Number-18-With-Enough-Characters-To-Be-Long\"), str::to_uppercase(\"Alpha-Subject-Number-19-With-Enough-Characters-To-Be-Long\"))", "(str::to_lowercase(\"Beta-Subject-Number-00-With-Enough-Characters-To-Be-Long\"), str::to_uppercase(\"Beta-Subject-Number-01-With-Enough-Characters-To-Be-Long\"), str::to_lowercase(\"Beta-Subject-Number-02-With-Enough-Characters-To-Be-Long\"), str::to_uppercase(\"Beta-Subject-Number-03-With-Enough-Characters-To-Be-Long\"), str::to_lowercase(\"Beta-Subject-Number-04-With-Enough-Characters-To-Be-Long\"), str::to_uppercase(\"Beta-Subject-Number-05-With-Enough-Characters-To-Be-Long\"), str::to_lowercase(\"Beta-Subject-Number-06-With-Enough-Characters-To-Be-Long\"), str::to_uppercase(\"Beta-Subject-Number-07-With-Enough-Characters-To-Be-Long\"), str::to_lowercase(\"Beta-Subject-Number-08-With-Enough-Characters-To-Be-Long\"), str::to_uppercase(\"Beta-Subject-Number-09-With-Enough-Characters-To-Be-Long\"), str::to_lowercase(\"Beta-Subject-Number-10-With-Enough-Characters-To-Be-Long\"), str::to_uppercase(\"Beta-Subject-Number-11-With-Enough-Characters-To-Be-Long\"), str::to_lowercase(\"Beta-Subject-Number-12-With-Enough-Characters-To-Be-Long\"), str::to_uppercase(\"Beta-Subject-Number-13-With-Enough-Characters-To-Be-Long\"), str::to_lowercase(\"Beta-Subject-Number-14-With-Enough-Characters-To-Be-Long\"), str::to_uppercase(\"Beta-Subject-Number-15-With-Enough-Characters-To-Be-Long\"), str::to_lowercase(\"Beta-Subject-Number-16-With-Enough-Characters-To-Be-Long\"), str::to_uppercase(\"Beta-Subject-Number-17-With-Enough-Characters-To-Be-Long\"), str::to_lowercase(\"Beta-Subject-Number-18-With-Enough-Characters-To-Be-Long\"), str::to_uppercase(\"Beta-Subject-Number-19-With-Enough-Characters-To-Be-Long\"))"], rich: false,
+        what: "20 case conversions of distinct long strings per thread (a bounded process-wide memo fills up and evicts while the other thread inserts)" },
     Workload { name: "printing-and-conversion", threads: 2, sources: &["str::from((me, (me, \"a\"), (), 2.5, true)) + str::from(me) + str::from(x)"], rich: true,
         what: "Display of nested values, typed views and printing of the tree from two threads" },
     Workload { name: "builtins-disabled-context", threads: 2, sources: &["y(me) + len(s)", "y(me) + x"], rich: false,
